@@ -79,7 +79,10 @@ pub fn run_auth(em: &mut Emitter, c: &Creds, chal: &[u8]) {
             let (ntl, nto) = (u16at(t, 20), u32at(t, 24));
             let (ekl, eko) = (u16at(t, 52), u32at(t, 56));
             let (lml, lmo) = (u16at(t, 12), u32at(t, 16));
-            if nto + ntl <= t.len() && ntl >= 16 && eko + ekl <= t.len() && ekl == 16 && lml == 24 && lmo + 24 <= t.len() {
+            // (the NT length field is not trusted: it wraps when the response exceeds 65535 bytes; its first
+            // 16 bytes, the NT proof, are all that is needed)
+            let _ = ntl;
+            if nto + 16 <= t.len() && eko + ekl <= t.len() && ekl == 16 && lml == 24 && lmo + 24 <= t.len() {
                 // the LM response is HMAC ‖ client challenge, whatever the timestamp length was
                 cc = t[lmo + 16..lmo + 24].to_vec();
                 let sbk = hmac_md5(&key, &t[nto..nto + 16]);
@@ -229,7 +232,8 @@ pub fn generate_c07(thorough: bool, seed: u64, part: (usize, usize), em: &mut Em
     // NT response then no longer fits its own 16-bit length field
     for n in &[65535usize, 65492, 65491, 65000] {
         let mut ti = av(1, &vec![0x41u8; n - 20]); ti.extend(av(7, &[1, 2, 3, 4, 5, 6, 7, 8])); ti.extend(av(0, &[]));
-        run_auth(em, &c, &challenge(0x62898235, &sc, &ti, false, 0, 0));
+        run_auth(em, &c, &challenge(0x62898235, &sc, &ti, true, 0, 0));
+        run_auth(em, &c, &challenge(0x62898235 & !0x02000000, &sc, &ti, false, 0, 0));
     }
     // a second CHALLENGE handed to the same Ntlm object (after a good one, after a refused one), with and
     // without a new NEGOTIATE message in between
